@@ -6,6 +6,7 @@ import (
 	"log/slog"
 	"os"
 	"strings"
+	"sync"
 	"testing"
 	"time"
 
@@ -19,6 +20,26 @@ import (
 type c19Case struct {
 	Lists   []ListSpec `json:"lists"` // all file-backed
 	Queries []Q        `json:"queries"`
+}
+
+// c19NotSubset builds the violation for a returned entry that the fault-free
+// engine does not return.  One shape has its own signature: the DNS engine
+// answers from the hosts table because the basic network rule that decides the
+// fault-free answer could not be read (known finding, see DESIGN.md 10.5).
+func c19NotSubset(where string, q Q, x string, oracle map[string]bool) *Violation {
+	sig := "C19:not-a-subset"
+	if q.Host && (strings.HasPrefix(x, "4|") || strings.HasPrefix(x, "6|")) {
+		hostsInOracle := false
+		for o := range oracle {
+			if strings.HasPrefix(o, "4|") || strings.HasPrefix(o, "6|") {
+				hostsInOracle = true
+			}
+		}
+		if !hostsInOracle {
+			sig = "C19:not-a-subset:hosts-fallback-after-lost-basic-rule"
+		}
+	}
+	return viol("C19", sig, "%s: query %+v returned %q which the fault-free engine does not return (%q)", where, q, x, sortedKeys(oracle))
 }
 
 // c19QueryDeadline: a single engine query normally takes microseconds.
@@ -88,7 +109,11 @@ func checkC19(c c19Case, rec *Rec) *Violation {
 	oracleEn.cleanup()
 	n := len(c.Queries)
 	nontrivial := false
-	for _, kind := range []string{"close", "closed-fd"} {
+	kinds := []string{"close", "closed-fd"}
+	if len(c.Lists) >= 2 {
+		kinds = append(kinds, "closed-fd-first-list-only")
+	}
+	for _, kind := range kinds {
 		for k := 0; k <= n; k++ {
 			en, fls, cleanup, err := c19Engines(c.Lists)
 			if err != nil {
@@ -106,6 +131,10 @@ func checkC19(c c19Case, rec *Rec) *Violation {
 							fl.File = closedFile()
 							_ = old.Close()
 						}
+					case "closed-fd-first-list-only":
+						old := fls[0].File
+						fls[0].File = closedFile()
+						_ = old.Close()
 					}
 				}
 				var got map[string]bool
@@ -127,10 +156,12 @@ func checkC19(c c19Case, rec *Rec) *Violation {
 					cleanup()
 					return viol(id, "C19:panic-after-fault", "fault %s before query %d: query %d %+v panicked: %v", kind, k, i, q, pan)
 				}
-				for x := range got {
+				for _, x := range sortedKeys(got) {
 					if !oracle[i][x] {
-						cleanup()
-						return viol(id, "C19:not-a-subset", "fault %s before query %d: query %d %+v returned %q which the fault-free engine does not return (%q)", kind, k, i, q, x, sortedKeys(oracle[i]))
+						if v := rec.filter(c19NotSubset(fmt.Sprintf("fault %s before query %d, query %d", kind, k, i), q, x, oracle[i])); v != nil {
+							cleanup()
+							return v
+						}
 					}
 				}
 				if i < k {
@@ -158,8 +189,88 @@ func checkC19(c c19Case, rec *Rec) *Violation {
 			cleanup()
 		}
 	}
+	if v := c19ConcurrentAfterPartialFault(c, oracle, rec); v != nil {
+		return v
+	}
 	if nontrivial {
 		rec.NonTrivial(fmt.Sprintf("%x", hash64(fmt.Sprint(c))), map[string]any{"lists": c.Lists, "queries": c.Queries, "fault_points": 2 * (n + 1)})
+	}
+	return nil
+}
+
+// c19ConcurrentAfterPartialFault: one list becomes unreadable, the others stay
+// healthy; several goroutines then query at once, so that rules of the healthy
+// lists are still being materialised while loaded rules of the broken list are
+// served.  Same oracle as the sequential enumeration.
+func c19ConcurrentAfterPartialFault(c c19Case, oracle []map[string]bool, rec *Rec) *Violation {
+	const id = "C19"
+	if len(c.Lists) < 2 || len(c.Queries) < 2 {
+		return nil
+	}
+	for broken := 0; broken < len(c.Lists) && broken < 2; broken++ {
+		en, fls, cleanup, err := c19Engines(c.Lists)
+		if err != nil {
+			return viol(id, "C19:harness", "storage: %v", err)
+		}
+		k := len(c.Queries) / 2
+		seen := map[string]bool{}
+		for _, q := range c.Queries[:k] {
+			for x := range en.resultSet(q) {
+				seen[x] = true
+			}
+		}
+		old := fls[broken].File
+		fls[broken].File = closedFile()
+		_ = old.Close()
+		const G = 4
+		var wg sync.WaitGroup
+		viols := make([]*Violation, G)
+		for g := 0; g < G; g++ {
+			wg.Add(1)
+			go func(g int) {
+				defer wg.Done()
+				defer func() {
+					if e := recover(); e != nil {
+						viols[g] = viol(id, "C19:panic-after-fault", "concurrent phase after list %d became unreadable: panic: %v", c.Lists[broken].ID, e)
+					}
+				}()
+				for round := 0; round < 6; round++ {
+					for i := range c.Queries {
+						qi := (i + g*3) % len(c.Queries)
+						got := en.resultSet(c.Queries[qi])
+						for _, x := range sortedKeys(got) {
+							if !oracle[qi][x] {
+								if v := rec.filter(c19NotSubset("concurrent phase after a partial fault", c.Queries[qi], x, oracle[qi])); v != nil {
+									viols[g] = v
+									return
+								}
+							}
+						}
+						for x := range oracle[qi] {
+							if seen[x] && !got[x] {
+								viols[g] = viol(id, "C19:materialised-rule-lost:concurrent", "list %d unreadable, %d goroutines querying: rule %q was returned before the fault and matches %+v but is not served", c.Lists[broken].ID, G, x, c.Queries[qi])
+								return
+							}
+						}
+					}
+				}
+			}(g)
+		}
+		done := make(chan struct{})
+		go func() { wg.Wait(); close(done) }()
+		select {
+		case <-done:
+		case <-time.After(c19QueryDeadline):
+			cleanup()
+			return viol(id, "C19:query-does-not-return-after-fault", "concurrent phase after a partial fault did not finish within %v", c19QueryDeadline)
+		}
+		cleanup()
+		rec.Label("concurrent-phase-after-partial-fault")
+		for _, v := range viols {
+			if v != nil {
+				return v
+			}
+		}
 	}
 	return nil
 }
